@@ -4,6 +4,7 @@ import (
 	"encoding/json"
 	"fmt"
 	"os"
+	"slices"
 	"sort"
 	"strings"
 
@@ -247,34 +248,40 @@ func genScenario(r *kit.Rng, kind, tier string) *scenario {
 	if tier == "thorough" {
 		nOps += r.Intn(30)
 	}
-	pickKey := func() (keySpec, *limitCfg) {
-		l := kit.Pick(r, limits)
-		return kit.Pick(r, l.keys), l
+	var allKeys []keySpec
+	for _, l := range limits {
+		allKeys = append(allKeys, l.keys...)
 	}
+	limitOf := func(k keySpec) *limitCfg {
+		for _, l := range limits {
+			if l.name == k.Name {
+				return l
+			}
+		}
+		return limits[0]
+	}
+	// a request's key list: distinct keys (a set of limits), rarely a duplicate or a key of an undefined limit
 	pickKeys := func() ([]keySpec, *limitCfg) {
-		var ks []keySpec
 		cnt := 1
 		if kind == "multi" || kind == "reset" || (kind != "single" && kind != "extreme" && r.Chance(1, 3)) {
 			cnt = 1 + r.Intn(3)
 		}
-		k0, l0 := pickKey()
-		ks = append(ks, k0)
-		for len(ks) < cnt {
-			switch {
-			case r.Chance(1, 12):
-				ks = append(ks, ks[r.Intn(len(ks))]) // duplicate key in one request
-			case r.Chance(1, 14):
-				ks = append(ks, undefined)
-			default:
-				k, _ := pickKey()
-				ks = append(ks, k)
-			}
+		pool := append([]keySpec(nil), allKeys...)
+		var ks []keySpec
+		for len(ks) < cnt && len(pool) > 0 {
+			x := r.Intn(len(pool))
+			ks = append(ks, pool[x])
+			pool = append(pool[:x], pool[x+1:]...)
 		}
-		if r.Bool() {
+		if r.Chance(1, 20) {
+			ks = append(ks, ks[r.Intn(len(ks))]) // duplicate key in one request
+		}
+		if r.Chance(1, 16) {
+			ks = append(ks, undefined)
 			r0 := r.Intn(len(ks))
-			ks[0], ks[r0] = ks[r0], ks[0]
+			ks[len(ks)-1], ks[r0] = ks[r0], ks[len(ks)-1]
 		}
-		return ks, l0
+		return ks, limitOf(ks[r.Intn(len(ks))])
 	}
 	for len(sc.Ops) < nOps {
 		ks, l := pickKeys()
@@ -358,7 +365,7 @@ func genScenario(r *kit.Rng, kind, tier string) *scenario {
 			sc.Ops = append(sc.Ops, &opSpec{Dt: dt, Kind: "take", Keys: ks, N: -int64(1 + r.Intn(3))})
 		case x < 48 && kind == "malformed":
 			sc.Ops = append(sc.Ops, &opSpec{Dt: dt, Kind: "take", Keys: nil, N: 1})
-		case x < 50:
+		case x < 49:
 			sc.Ops = append(sc.Ops, &opSpec{Dt: dt, Kind: "take", Keys: ks, N: 0})
 		default:
 			sc.Ops = append(sc.Ops, &opSpec{Dt: dt, Kind: "take", Keys: ks, N: genN(r, l)})
@@ -502,7 +509,12 @@ func shapeKey(sc *scenario) string {
 
 // scenarioTags: input distribution for the evidence (configuration classes, op mix, outcomes)
 func scenarioTags(sc *scenario) map[string]bool {
-	t := map[string]bool{"kind:" + sc.Note: true}
+	t := map[string]bool{}
+	if slices.Contains(kinds, sc.Note) {
+		t["kind:"+sc.Note] = true
+	} else {
+		t["kind:corpus"] = true
+	}
 	cfg := func(s *stateSpec) {
 		switch {
 		case s.Max == 0:
